@@ -141,6 +141,18 @@ def check(prop, tier, seed):
             proof["error"] = "the model module(s) %s could not be regenerated from the working tree (%s): the theorems were " \
                              "checked against the committed model only" % (", ".join(stale), "; ".join(
                                  str(model_status[m].get("reason", ""))[:200] for m in stale))
+        # hand-modelled source items whose text is no longer the text the model transcribes
+        import pins
+        bp = pins.broken_for(prop, C.GEN)
+        if proof["ok"] and bp is None:
+            proof["ok"] = False
+            proof["error"] = "the translator reported no pins: the hand-written models cannot be tied to the source"
+        elif proof["ok"] and bp:
+            proof["ok"] = False
+            proof["failed_lemma"] = "hand model of " + ", ".join("%s (%s)" % (i, f) for f, i, _ in bp[:4])
+            proof["error"] = "the hand-written model of this property transcribes source items whose text has changed: " + \
+                "; ".join("%s in %s: %s" % (i, f, st) for f, i, st in bp[:8])
+        model_status["pins"] = {"status": "checked", "summary": pins.summary(C.GEN), "broken_for_this_property": bp or []}
         mons, corrs, herr, notes = [], [], [], []
         evals, distinct, samples, dist, rules = 0, 0, [], {}, []
         if "cast" in fam:
